@@ -191,7 +191,7 @@ def run_scenario(repo, fi, n_ap, nb_max, nb_min, chunk):
     return I, h, r
 
 
-def check_scenario(I, h, r, n_ap, nb_max, nb_min):
+def check_scenario(I, h, r, n_ap, nb_max, nb_min):          # noqa: C901
     """-> (verdict, problems): 'ok' | 'violation' | 'undecided'"""
     if h.wrong_search:
         return 'violation', ['orders: the window bound %s is searched for in the wavelengths as stored, which decrease; searchsorted needs them increasing' % h.wrong_search[0]]
@@ -238,7 +238,9 @@ def check_scenario(I, h, r, n_ap, nb_max, nb_min):
         same(attrs.get('apertures'), sym('ap', A), '%s: apertures' % tag)
         before = cf.events[:cf.events.index(wev)]
         sorts = [e for e in before if e[0] == 'sort']
-        if not sorts:
+        if not sorts and any(attrs.get(b_) is not None and not any(e[0] == 'store' and e[1] == b_ for e in before) for b_ in ('flux', 'error', 'model_names')):
+            unknown.append('%s: the tables are handed over as a whole; whether their rows are in parameter-table order was not decided' % tag)
+        elif not sorts:
             problems.append('%s: rows are not put in parameter-table order (sort_to_match) before the file is written' % tag)
         elif not (isinstance(sorts[-1][1], Arr) and alg.is_zero(sorts[-1][1].poly - sym('tname', T))[0]):
             unknown.append('%s: sort_to_match argument %r' % (tag, sorts[-1][1]))
@@ -247,6 +249,15 @@ def check_scenario(I, h, r, n_ap, nb_max, nb_min):
         for im in range(NM):
             for buf, base in (('flux', 'sflux%d' % im), ('error', 'serr%d' % im)):
                 st = [e for e in before if e[0] == 'store' and e[1] == buf and (e[2] == im or (isinstance(e[2], tuple) and e[2] and e[2][0] == im))]
+                whole = attrs.get(buf)
+                if not st and whole is not None:
+                    # the table was handed to the ConvolvedFluxes as a whole (constructor or attribute): row im of it, when the model axis can be told
+                    if isinstance(whole, Arr) and whole.ndim >= 1 and whole.mask is None and whole.dims[0] is not None and I.axis_len.get(whole.dims[0]) == NM:
+                        v = Arr(tuple(whole.dims[1:]), alg.index_at(whole.poly, whole.dims[0], Poly.const(im)), unit=whole.unit)
+                        st = [('store', buf, im, v)]
+                    else:
+                        unknown.append('%s: %s table given as a whole, %r' % (tag, buf, whole))
+                        continue
                 if len(st) != 1:
                     problems.append('%s: row %d of %s is stored %d times' % (tag, im, buf, len(st)))
                     continue
@@ -256,6 +267,9 @@ def check_scenario(I, h, r, n_ap, nb_max, nb_min):
                     col = mk_fn('at', B(A, col), P(Poly()))
                 same(v, col, '%s: row %d of %s' % (tag, im, buf))
             st = [e for e in before if e[0] == 'store' and e[1] == 'model_names' and e[2] == im]
+            if not st and attrs.get('model_names') is not None:
+                unknown.append('%s: model names given as a whole, %r' % (tag, attrs.get('model_names')))
+                continue
             if len(st) != 1 or st[0][3] != 'NAME%d' % im:
                 problems.append('%s: row %d of the model names is %r' % (tag, im, [e[3] for e in st]))
         rows = [e for e in before if e[0] == 'store' and e[1] in ('flux', 'error', 'model_names') and not (e[2] in range(NM) or (isinstance(e[2], tuple) and e[2] and e[2][0] in range(NM)))]
